@@ -39,9 +39,9 @@ func descN(v ssa.Value, depth int, seen map[ssa.Value]bool) string {
 	d := func(x ssa.Value) string { return descN(x, depth+1, seen) }
 	switch v := v.(type) {
 	case *ssa.Parameter:
-		return "%" + v.Name()
+		return "%" + canonParam(v)
 	case *ssa.FreeVar:
-		return "^" + v.Name()
+		return "^" + canonFreeVar(v)
 	case *ssa.Const:
 		return ConstStr(v)
 	case *ssa.Global:
@@ -76,7 +76,7 @@ func descN(v ssa.Value, depth int, seen map[ssa.Value]bool) string {
 		case strings.HasSuffix(c, "slicelit") || c == "varargs" || c == "makeslice":
 			return "newarr(" + TypeStr(deref(v.Type())) + ")"
 		default:
-			return "&local:" + c
+			return "&local:" + canonLocal(v)
 		}
 	case *ssa.FieldAddr:
 		return d(v.X) + ".&" + fieldName(v.X.Type(), v.Field)
@@ -634,4 +634,73 @@ func AllocatedTypeOr(v ssa.Value) string {
 		return t
 	}
 	return StaticType(v)
+}
+
+// Canon holds the parameter and captured-variable names the rules were
+// written against, per function (short name): descriptors use these names by
+// position, so that renaming a parameter or a captured variable in the
+// repository does not change any descriptor. A function whose parameter count
+// differs from the frozen one falls back to the current names.
+var Canon = map[string]CanonNames{}
+
+type CanonNames struct {
+	Params   []string `json:"params"`
+	FreeVars []string `json:"freevars"`
+	Locals   []string `json:"locals"`
+}
+
+// NamedLocals lists the address-taken named locals of fn in order.
+func NamedLocals(fn *ssa.Function) []*ssa.Alloc {
+	var out []*ssa.Alloc
+	for _, b := range fn.Blocks {
+		for _, in := range b.Instrs {
+			if a, ok := in.(*ssa.Alloc); ok {
+				c := a.Comment
+				if c == "complit" || c == "new" || c == "" || strings.HasSuffix(c, "slicelit") || c == "varargs" || c == "makeslice" {
+					continue
+				}
+				out = append(out, a)
+			}
+		}
+	}
+	return out
+}
+
+func canonLocal(a *ssa.Alloc) string {
+	fn := a.Parent()
+	if cn, ok := Canon[ShortName(fn)]; ok && len(cn.Locals) > 0 {
+		ls := NamedLocals(fn)
+		if len(ls) == len(cn.Locals) {
+			for i, q := range ls {
+				if q == a {
+					return cn.Locals[i]
+				}
+			}
+		}
+	}
+	return a.Comment
+}
+
+func canonParam(p *ssa.Parameter) string {
+	fn := p.Parent()
+	if cn, ok := Canon[ShortName(fn)]; ok && len(cn.Params) == len(fn.Params) {
+		for i, q := range fn.Params {
+			if q == p {
+				return cn.Params[i]
+			}
+		}
+	}
+	return p.Name()
+}
+
+func canonFreeVar(v *ssa.FreeVar) string {
+	fn := v.Parent()
+	if cn, ok := Canon[ShortName(fn)]; ok && len(cn.FreeVars) == len(fn.FreeVars) {
+		for i, q := range fn.FreeVars {
+			if q == v {
+				return cn.FreeVars[i]
+			}
+		}
+	}
+	return v.Name()
 }
